@@ -2534,6 +2534,10 @@ pub mod verif_hooks_queue {
         out.push(show(parser, x.common.associated_comments));
         skeleton(parser, &x.callee, out);
       }
+      E::Tuple(_, list) => {
+        out.push("leaf".to_string());
+        out.push(show(parser, list.start_associated_comments));
+      }
       other => {
         out.push("leaf".to_string());
         out.push(show(parser, other.common().associated_comments));
